@@ -85,3 +85,39 @@ func concurrentIdentifiers(t *testing.T, pid string, workers, rounds int) {
 func TestC01ConcurrentIdentifiers(t *testing.T) { concurrentIdentifiers(t, "C01", 8, 3000) }
 func TestC10ConcurrentIdentifiers(t *testing.T) { concurrentIdentifiers(t, "C10", 8, 3000) }
 func TestC17ConcurrentIdentifiers(t *testing.T) { concurrentIdentifiers(t, "C17", 8, 3000) }
+
+// identifiersNotAliased: a derived escrow address is a fresh value. A caller that modifies the bytes
+// it got back (in place, or through append on a sub-slice, which writes into the same backing array)
+// must not change what the next derivation for that bridge returns.
+func identifiersNotAliased(t *testing.T, pid string) {
+	rec := evid.For(pid)
+	ids := []uint64{1, 2, 3, 255, 256, 1 << 32, 1<<63 - 1, ^uint64(0)}
+	for round := 0; round < 3; round++ {
+		for _, id := range ids {
+			want := ref.BridgeAddress(id)
+			got := ophosttypes.BridgeAddress(id)
+			if !bytes.Equal(got, want) {
+				caseFail(t, "aliasing", "%s violated: escrow address of bridge %d is %x, its definition gives %x (round %d, after earlier results were modified by their callers)", pid, id, []byte(got), want, round)
+			}
+			// what callers may do with a value they own
+			switch round {
+			case 0:
+				for i := range got {
+					got[i] ^= 0xff
+				}
+			case 1:
+				if len(got) >= 20 {
+					_ = append(got[:20], []byte("/suffix-written-by-the-caller")...)
+				}
+			}
+			c := rec.Begin()
+			c.Class("identifier-result-modified-by-caller")
+			c.NonTrivial()
+			c.Shape(fmt.Sprintf("aliasing/%d/%d", round, id))
+			c.Done()
+		}
+	}
+}
+
+func TestC01ResultAliasing(t *testing.T) { identifiersNotAliased(t, "C01") }
+func TestC17ResultAliasing(t *testing.T) { identifiersNotAliased(t, "C17") }
